@@ -141,7 +141,7 @@ def cases(tier, seed):
             prm = dict(maxiter=r.choice([1, 2, 3] if heavy else [1, 2, 3, 4, 6]), tol=r.choice([F(0), TOL10]), abstol=kc.ABSTOL_MIN,
                        M=r.choice([1, 2, 4]), K=r.choice([1, 2]), L=r.choice([1, 2]), s=r.choice([1, 2, 3]),
                        damping=r.choice([F(1), F(1, 2)]), smoothing=int(r.random() < 0.3), replacement=int(r.random() < 0.3),
-                       ca=int(r.random() < 0.3), areset=1)
+                       ca=int(r.random() < 0.3), areset=1, convex=int(r.random() < 0.5))
             out.append((kc.seq_line("q%d" % len(out), "seq", solver, side, n, calls, **prm), "seq", dict(solver=solver)))
             if solver == "lgmres" and si < 4:
                 prm2 = dict(prm, areset=0, K=2, M=2, maxiter=3)
@@ -151,8 +151,18 @@ def cases(tier, seed):
             n = r.choice([5, 12, 30])
             calls = script(r, solver, n, dbl=True)
             prm = dict(maxiter=r.choice([3, 10, 40]), tol=F(1, 10 ** 8), M=r.choice([2, 5, 30]), K=r.choice([1, 3]), L=r.choice([1, 2, 3]),
-                       s=r.choice([1, 2, 4]), damping=F(3, 4), smoothing=int(r.random() < 0.3), replacement=int(r.random() < 0.3), areset=1)
+                       s=r.choice([1, 2, 4]), damping=F(3, 4), smoothing=int(r.random() < 0.3), replacement=int(r.random() < 0.3), areset=1,
+                       convex=int(r.random() < 0.4))      # bicgstabl: the non-convex branch keeps Y0 / YL between sweeps (seeded C15-5)
             out.append((kc.seq_line("q%d" % len(out), "d.seq", solver, kc.side_for(r, solver), n, calls, **prm), "dseq", dict(solver=solver)))
+    # 2a'. bicgstabl without the convex combination (convex = false): the coefficients of the MinRes / OR polynomials (Y0, YL) are members
+    #      that survive a call; L = 2, 3, both sides, a call that goes non-finite inside the polynomial part in the middle
+    for L in (2, 3):
+        for side in ("left", "right"):
+            for rep in range(1 if tier == "quick" else 4):
+                n = r.choice([5, 12, 30])
+                calls = script(r, "bicgstabl", n, dbl=True)
+                prm = dict(maxiter=r.choice([10, 40]), tol=F(1, 10 ** 8), M=2, K=1, L=L, s=2, damping=F(3, 4), smoothing=0, replacement=0, areset=1, convex=0)
+                out.append((kc.seq_line("q%d" % len(out), "d.seq", "bicgstabl", side, n, calls, **prm), "dseq", dict(solver="bicgstabl")))
     # 2b. long multi-restart solves on one object (double build, bit patterns): restarted methods with short
     #     restart lengths on convection-diffusion systems that need dozens of restarts; 3-5 calls per object with a
     #     zero right-hand side in between (state that survives a call -- ring buffers, bases, counters -- must not
@@ -174,7 +184,7 @@ def cases(tier, seed):
             calls = [kc.Sys(n, rows, pk, pdata, ff, list(z), sym) for ff in order]
             prm = dict(maxiter=r.choice([300, 600]), tol=F(1, 10 ** 10), M=r.choice([2, 3, 4, 6, 8]), K=r.choice([1, 2, 3, 4]),
                        L=r.choice([1, 2, 3]), s=r.choice([1, 2, 4]), damping=F(3, 4), smoothing=int(r.random() < 0.3),
-                       replacement=int(r.random() < 0.3), areset=1)
+                       replacement=int(r.random() < 0.3), areset=1, convex=int(r.random() < 0.4))
             out.append((kc.seq_line("q%d" % len(out), "d.seq", solver, kc.side_for(r, solver), n, calls, **prm), "dseq",
                         dict(solver=solver, long=True, M=prm["M"], K=prm["K"])))
     # 2c. binary64 sequences compared with the model object (state threaded through the calls)
